@@ -76,8 +76,12 @@ func c10GenWorld(r *core.Rng) *c10World {
 		for j, n := range names {
 			ic := ifs.Sub(n).Sub("config")
 			if j == len(names)-1 && len(names) >= 2 && r.Chance(1, 2) {
-				ic.Set("filename", "own_"+strings.ToLower(n)+".go")
-				own = &c10File{path: c10OutDir(q.Dir) + "/own_" + strings.ToLower(n) + ".go", pkg: i, ifaces: []string{n}}
+				fn := "own_" + strings.ToLower(n) + ".go"
+				if r.Bool() {
+					fn = "nested/deeper/" + fn // a filename may name sub-directories
+				}
+				ic.Set("filename", fn)
+				own = &c10File{path: c10OutDir(q.Dir) + "/" + fn, pkg: i, ifaces: []string{n}}
 				continue
 			}
 			main.ifaces = append(main.ifaces, n)
